@@ -116,6 +116,63 @@ type c10Intent struct {
 
 const c10DirectedChunk = 12
 
+// c10SameSizeValue returns a value of the kind and (about) the size attribute a holds now:
+// strings of the stored length + delta, numbers of the stored kind and count (delta 0 only).
+func c10SameSizeValue(a dump.Attr, delta, salt int) *hx.Val {
+	switch {
+	case a.HasStr && len(a.Strs) == 1:
+		n := len(a.Strs[0]) + delta
+		if n < 1 || n > 4000 {
+			return nil
+		}
+		b := make([]byte, n)
+		for i := range b {
+			b[i] = byte('A' + (i+salt)%26)
+		}
+		return &hx.Val{Kind: "str", S: []string{string(b)}}
+	case delta == -2 && (a.Class == 0 || a.Class == 1) && len(a.Nums) > 0 && len(a.Nums) <= 4096:
+		kind := ""
+		switch {
+		case a.Class == 1 && a.Size == 4:
+			kind = "f32"
+		case a.Class == 1 && a.Size == 8:
+			kind = "f64"
+		case a.Class == 0 && (a.Size == 1 || a.Size == 2 || a.Size == 4 || a.Size == 8):
+			kind = fmt.Sprintf("i%d", a.Size*8)
+			if a.BitField&0x08 == 0 {
+				kind = fmt.Sprintf("u%d", a.Size*8)
+			}
+		}
+		if kind == "" {
+			return nil
+		}
+		n := len(a.Nums)
+		v := hx.Val{Kind: kind}
+		if len(a.Dims) > 0 {
+			v.Kind = "[]" + kind
+		} else if n != 1 {
+			return nil
+		}
+		for i := 0; i < n; i++ {
+			x := int64((i + salt) % 100)
+			switch kind[0] {
+			case 'i':
+				v.I = append(v.I, x)
+			case 'u':
+				v.U = append(v.U, uint64(x))
+			default:
+				if a.Size == 4 {
+					v.F = append(v.F, uint64(math.Float32bits(float32(x)+0.5)))
+				} else {
+					v.F = append(v.F, math.Float64bits(float64(x)+0.5))
+				}
+			}
+		}
+		return &v
+	}
+	return nil
+}
+
 // c10Eligible lists the corpus files used as reference bases (below 1 MiB), sorted.
 func c10Eligible() []string {
 	corpusInit()
@@ -141,19 +198,52 @@ func c10Run(c *ev.Ctx) {
 		lo := c.Index * c10DirectedChunk
 		hi := min(lo+c10DirectedChunk, len(files))
 		for _, f := range files[lo:hi] {
-			c10RunOne(c, f, func(si int, dsPaths []string) []c10Intent {
-				if si == 0 {
+			c10RunOne(c, f, func(si int, dsPaths []string, prev *dump.Dump) []c10Intent {
+				switch {
+				case si == 0:
 					return nil // no-op session
+				case si == 1:
+					var plan []c10Intent
+					for i, p := range dsPaths {
+						if i == 4 {
+							break
+						}
+						v := hx.Val{Kind: "i32", I: []int64{int64(40 + i)}}
+						plan = append(plan, c10Intent{choice: 0, openPath: p, name: "zz_added", val: &v})
+					}
+					return append(plan, c10Intent{choice: 3})
 				}
-				var plan []c10Intent
+				// sessions 2-42: an attribute the file came with (the first one found on the first
+				// four datasets, whatever its type) is replaced by strings of 1, 2, ... 40 characters
+				// and finally by numbers of the stored kind and count: among them are the values
+				// whose encoded message is exactly as large as the stored one
 				for i, p := range dsPaths {
 					if i == 4 {
 						break
 					}
-					v := hx.Val{Kind: "i32", I: []int64{int64(40 + i)}}
-					plan = append(plan, c10Intent{choice: 0, openPath: p, name: "zz_added", val: &v})
+					po := prev.Get(p)
+					if po == nil {
+						continue
+					}
+					for _, a := range po.Attrs {
+						if a.Name == "zz_added" {
+							continue
+						}
+						if si <= 41 {
+							b := make([]byte, si-1)
+							for j := range b {
+								b[j] = byte('A' + (j+si)%26)
+							}
+							return []c10Intent{{choice: 0, openPath: p, name: a.Name, val: &hx.Val{Kind: "str", S: []string{string(b)}}}}
+						}
+						if v := c10SameSizeValue(a, -2, si); v != nil && a.ValueRes.OK() {
+							return []c10Intent{{choice: 0, openPath: p, name: a.Name, val: v}}
+						}
+						return []c10Intent{{choice: -1}}
+					}
 				}
-				return append(plan, c10Intent{choice: 3})
+				return []c10Intent{{choice: -1}} // no attributed dataset: no further sessions
+				return nil
 			})
 		}
 		return
@@ -161,7 +251,7 @@ func c10Run(c *ev.Ctx) {
 	c10RunOne(c, "", nil)
 }
 
-func c10RunOne(c *ev.Ctx, forcedRef string, directed func(si int, dsPaths []string) []c10Intent) {
+func c10RunOne(c *ev.Ctx, forcedRef string, directed func(si int, dsPaths []string, prev *dump.Dump) []c10Intent) {
 	r := c.R
 	path := filepath.Join(c.Dir, "c10.h5")
 	var e *hx.Exec
@@ -240,7 +330,7 @@ func c10RunOne(c *ev.Ctx, forcedRef string, directed func(si int, dsPaths []stri
 	}
 	nsess := r.Range(1, 6)
 	if directed != nil {
-		nsess = 2
+		nsess = 43
 	}
 	created := 0
 	mods, noops := 0, 0
@@ -271,6 +361,13 @@ func c10RunOne(c *ev.Ctx, forcedRef string, directed func(si int, dsPaths []stri
 			}
 			return best
 		}
+		var plan []c10Intent
+		if directed != nil {
+			plan = directed(si, dsPaths, prev)
+			if len(plan) == 1 && plan[0].choice == -1 {
+				break // the directed walk has nothing more to try on this file
+			}
+		}
 		shaBefore, sizeBefore := fileSHA(path)
 		res := e.Step(-1, &hx.Op{K: "reopen"})
 		logh(fmt.Sprintf("S%d reopen[%s]", si, res.Err+res.Panic))
@@ -284,9 +381,7 @@ func c10RunOne(c *ev.Ctx, forcedRef string, directed func(si int, dsPaths []stri
 			return
 		}
 		nops := r.Weighted([]int{2, 2, 3, 3, 2, 1, 1, 1, 1, 1, 1}) // 0..10
-		var plan []c10Intent
 		if directed != nil {
-			plan = directed(si, dsPaths)
 			nops = len(plan)
 		}
 		type touch struct {
